@@ -253,6 +253,11 @@ impl verif::Hooks for InlineHooks {
                 "lock_held_at_control_point",
                 format!("channel state lock is held while user code (processor, watcher or metrics sampler) runs; a sender at `{site}` would wait on the destination"),
             );
+            w.out.violate(
+                "C08",
+                "lock_held_at_control_point",
+                format!("channel state lock is held while user code (processor, watcher or metrics sampler) runs; the operation at `{site}` waits for it before any timeout counts (and deadlocks if that user code is what runs it)"),
+            );
             w.log(format!("LOCK CONTENDED at {site}"));
             if w.violations_at_abort.is_none() {
                 w.violations_at_abort = Some(w.out.violations.len());
